@@ -10,6 +10,7 @@ REAL_KINDS = ["plain", "plain", "softmax", "exp", "softplus", "sigmoid", "ssig",
 NORM_KINDS = ["softmax", "logsoftmax-exp"]
 
 DISCRETE_TYPES = ("cat", "catl", "bin", "binl", "emb")
+FAMILY = {"cat": "cat", "catl": "cat", "bin": "bin", "binl": "bin", "emb": "emb", "gau": "gau", "pol": "pol"}
 CONT_TYPES = ("gau", "pol")
 
 
@@ -47,7 +48,8 @@ class SDBuilder:
     def __init__(self, draw, *, input_types, nonneg=False, cx=False, max_K=3, allow_kron=True,
                  max_parts=2, share=True, vtree=None, domains=None, sum_kinds=None,
                  leaf_sum_p=0.3, mixing=True, kron_max_out=16, ncat_max=3, deg_max=2,
-                 gauss_lp=True, emb_kinds=None, learn_mix=False, norm_inputs=False):
+                 gauss_lp=True, emb_kinds=None, learn_mix=False, norm_inputs=False, decisions=None,
+                 max_reps=1, leaf_kinds=None):
         self.draw = draw
         self.input_types = tuple(input_types)
         self.nonneg = nonneg
@@ -70,6 +72,19 @@ class SDBuilder:
         self.emb_kinds = emb_kinds
         self.norm_inputs = norm_inputs
         self.part_memo = {}
+        # decisions: dict shared between builders so that several circuits get the same skeleton
+        # (layer kinds per scope); None = every choice drawn independently
+        self.decisions = decisions
+        self.max_reps = max_reps
+        self.leaf_kinds = leaf_kinds
+
+    def decide(self, key, name, strat):
+        if self.decisions is None:
+            return self.draw(strat)
+        dec = self.decisions.setdefault(str(key), {})
+        if name not in dec:
+            dec[name] = self.draw(strat)
+        return dec[name]
 
     # -- helpers
     def add(self, L):
@@ -108,6 +123,10 @@ class SDBuilder:
             cands = [t for t in self.input_types if t in DISCRETE_TYPES]
         else:
             cands = [t for t in self.input_types if t in CONT_TYPES]
+        if self.decisions is not None:
+            fams = sorted({FAMILY[t] for t in cands})
+            fam = self.decide(("leaf", v), "family", st.sampled_from(fams))
+            cands = [t for t in cands if FAMILY[t] == fam]
         t = d(st.sampled_from(cands))
         n = dom[1] if dom[0] == "d" else None
         if t == "cat":
@@ -167,8 +186,13 @@ class SDBuilder:
             return self.memo[key]
         if len(scope) == 1:
             l = self.leaf(scope[0], K)
-            if d(st.floats(0, 1)) < self.leaf_sum_p:
+            if self.decisions is not None:
+                if self.decide(scope, "leaf_sum", st.booleans()):
+                    l = self.sum_over([l], K)
+            elif d(st.floats(0, 1)) < self.leaf_sum_p:
                 l = self.sum_over([l], K)
+        elif self.decisions is not None:
+            l = self._build_skeleton(scope, K)
         else:
             prods = []
             for blocks in self.partitions(scope):
@@ -198,6 +222,35 @@ class SDBuilder:
         return l
 
 
+    def _build_skeleton(self, scope, K):
+        """Inner region in skeleton mode: one partition (vtree), layer kinds fixed by the shared
+        decisions (product type, sum after product, top sum); the number of repetitions of the
+        partition (= arity of the top sum), unit counts and parameterisations are free."""
+        d = self.draw
+        (blocks,) = self.partitions(scope)
+        nb = len(blocks)
+        use_kron = self.allow_kron and self.decide(scope, "kron", st.integers(0, 2)) == 0
+        sum_after = True if use_kron else self.decide(scope, "sum_after", st.booleans())
+        top = self.decide(scope, "top", st.booleans())
+        nrep = d(st.integers(1, self.max_reps)) if top else 1
+        prods = []
+        for _ in range(nrep):
+            order = d(st.permutations(list(range(nb))))
+            bl = [blocks[i] for i in order]
+            if use_kron:
+                kin_max = max(1, int(self.kron_max_out ** (1.0 / nb) + 1e-9))
+                Kin = d(st.integers(1, min(self.max_K, kin_max)))
+                p = self.add({"t": "kro", "in": [self.build(b, Kin) for b in bl]})
+            else:
+                p = self.add({"t": "had", "in": [self.build(b, K) for b in bl]})
+            if sum_after:
+                p = self.sum_over([p], K)
+            prods.append(p)
+        if top:
+            return self.sum_over(prods, K)
+        return prods[0]
+
+
 ALL_INPUTS = ("cat", "catl", "bin", "binl", "emb", "gau", "pol")
 NONNEG_INPUTS = ("cat", "catl", "bin", "binl", "gau", "emb")
 
@@ -211,10 +264,10 @@ def var_ids(draw, nv, max_id=24, p_identity=0.4):
 @st.composite
 def sd_circuit(draw, *, max_vars=4, min_vars=1, input_types=ALL_INPUTS, nonneg=False, cx=False, max_K=3,
                allow_kron=True, max_parts=2, multi_out=True, structured=False, renumber=True,
-               max_id=24, with_const=False, **kw):
+               max_id=24, with_const=False, same_scope_outputs=False, p_identity=0.4, **kw):
     """A smooth & decomposable circuit spec (DAG with shared sub-circuits, 1..3 outputs)."""
     nv = draw(st.integers(min_vars, max_vars))
-    ids = var_ids(draw, nv, max_id) if renumber else list(range(nv))
+    ids = var_ids(draw, nv, max_id, p_identity) if renumber else list(range(nv))
     K = draw(st.integers(1, max_K))
     vt = draw_vtree(draw, ids) if structured else None
     b = SDBuilder(draw, input_types=input_types, nonneg=nonneg, cx=cx, max_K=max_K,
@@ -231,11 +284,15 @@ def sd_circuit(draw, *, max_vars=4, min_vars=1, input_types=ALL_INPUTS, nonneg=F
     if multi_out:
         from vlib.spec import spec_units
 
+        from vlib.spec import spec_scopes
+
         units = spec_units({"layers": b.layers})
+        scopes = spec_scopes({"layers": b.layers})
         Kr = units[root]
         n_extra = draw(st.integers(0, 2))
         for _ in range(n_extra):
-            cands = [i for i, L in enumerate(b.layers) if units[i] == Kr and i not in outs]
+            cands = [i for i, L in enumerate(b.layers) if units[i] == Kr and i not in outs
+                     and (not same_scope_outputs or scopes[i] == scopes[root])]
             if not cands:
                 break
             # prefer inner layers (outputs that feed other layers)
@@ -324,32 +381,44 @@ def any_circuit(draw, *, max_vars=4, max_layers=10, max_id=24, renumber=True):
 
 @st.composite
 def sd_pair(draw, *, n=2, max_vars=4, min_vars=1, input_types=ALL_INPUTS, nonneg=False, cx=False, max_K=3,
-            allow_kron=True, renumber=True, max_id=24, same_vtree=True, multi_out=True, **kw):
+            allow_kron=True, renumber=True, max_id=24, same_vtree=True, multi_out=True, skeleton=False,
+            max_reps=2, same_K=False, **kw):
     """n circuits over the same variables, built on the same vtree (compatible by construction
-    when same_vtree) with independent unit counts / sum arities / parameterisations."""
+    when same_vtree) with independent unit counts / sum arities / parameterisations.
+    skeleton=True additionally shares the layer kinds per scope (product type, sums above the
+    product, input family per variable), which is what the layer-wise product rules need; the
+    arity of the top sum of each region (repetitions of the partition), unit counts, input
+    parameterisations and the number of outputs stay independent."""
     nv = draw(st.integers(min_vars, max_vars))
     ids = var_ids(draw, nv, max_id) if renumber else list(range(nv))
     vt = draw_vtree(draw, ids)
     domains = {}
+    decisions = {} if skeleton else None
     specs = []
     for j in range(n):
         vtj = vt if (same_vtree or j == 0) else draw_vtree(draw, ids)
-        K = draw(st.integers(1, max_K))
+        K = draw(st.integers(1, max_K)) if not (same_K and j > 0) else K
         b = SDBuilder(draw, input_types=input_types, nonneg=nonneg, cx=cx, max_K=max_K,
-                      allow_kron=allow_kron, vtree=vtj, domains=domains, **kw)
+                      allow_kron=allow_kron, vtree=vtj, domains=domains, decisions=decisions,
+                      max_reps=max_reps if skeleton else 1, **kw)
         root = b.build(ids, K)
         outs = [root]
         if multi_out and draw(st.integers(0, 3)) == 0:
-            from vlib.spec import spec_scopes, spec_units
+            if skeleton:
+                b.memo.pop((tuple(sorted(ids)), K), None)
+                r2 = b.build(ids, K)
+                if r2 != root:
+                    outs.append(r2)
+            else:
+                from vlib.spec import spec_scopes, spec_units
 
-            units = spec_units({"layers": b.layers})
-            scopes = spec_scopes({"layers": b.layers})
-            cands = [i for i in range(len(b.layers)) if units[i] == units[root] and i != root
-                     and scopes[i] == scopes[root]]
-            if cands:
-                outs.append(draw(st.sampled_from(cands)))
-        specs.append({"layers": b.layers, "outputs": outs,
-                      "_domains": {str(k): list(v) for k, v in domains.items()}})
+                units = spec_units({"layers": b.layers})
+                scopes = spec_scopes({"layers": b.layers})
+                cands = [i for i in range(len(b.layers)) if units[i] == units[root] and i != root
+                         and scopes[i] == scopes[root]]
+                if cands:
+                    outs.append(draw(st.sampled_from(cands)))
+        specs.append({"layers": b.layers, "outputs": outs})
     for s in specs:
         s["_domains"] = {str(k): list(v) for k, v in domains.items()}
     return specs
